@@ -1066,13 +1066,28 @@ struct World : IWorld {
     template<class List>
     static std::vector<const void*> enumerate(List& l, bool const_iter) {
         std::vector<const void*> v;
+        // (both iterator kinds, pre- and post-increment; the value of it++ is used)
         if (const_iter) {
             const List& cl = l;
+            std::vector<const void*> pre;
             for (auto it = cl.begin(); it != cl.end(); ++it)
-                v.push_back(&*it);
+                pre.push_back(&*it);
+            for (auto it = cl.begin(); it != cl.end();) {
+                auto cur = it++;
+                v.push_back(cur == cl.end() ? nullptr : &*cur);
+            }
+            if (pre != v)
+                v.push_back(nullptr); // the two ways of iterating disagree: reported as a wrong catalog
         } else {
-            for (auto it = l.begin(); it != l.end(); it++)
-                v.push_back(&*it);
+            std::vector<const void*> pre;
+            for (auto it = l.begin(); it != l.end(); ++it)
+                pre.push_back(&*it);
+            for (auto it = l.begin(); it != l.end();) {
+                auto cur = it++;
+                v.push_back(cur == l.end() ? nullptr : &*cur);
+            }
+            if (pre != v)
+                v.push_back(nullptr);
         }
         return v;
     }
